@@ -1,4 +1,5 @@
 import PwVerif.Proofs.WfIO
+import PwVerif.Proofs.MapHeap
 /-!
 # C15 — A workflow's inputs and outputs are exactly its children's open channels
 
@@ -520,6 +521,198 @@ example : (editMap [("a", .name "x"), ("b", .name "y")] .popitem).1 = [("a", .na
     (editMap [("a", .name "x")] (.popd "zz")) = ([("a", .name "x")], .ok) ∧
     (editMap [("a", .name "x")] (.invDel (some "x"))) = ([], .ok) := by decide
 
+/-! ## Map objects with identity: who is affected by an edit
+
+`Model/MapHeap.lean`: map objects live in a heap, the workflow under study (`wfIn`, `wfOut`), a
+second workflow (`otherIn`, `otherOut`) and the user hold references.  The setter cleans a plain
+`dict` argument in place and stores a NEW `bidict`; the getter hands out the stored reference. -/
+
+/-- **No aliasing, ever.** After every history of object creations, assignments of any object
+(a user's dict or bidict, a live map obtained from a getter, a replaced live map, `None`) to any
+of the four map attributes, getter calls, in-place edits through ANY reference, pickle round
+trips and structural edits: every object has distinct keys (a bidict also distinct values), the
+four stored references name four DIFFERENT objects, and each of them is a bidict. -/
+theorem C15_heap_inv (admits : Nat → Val → Bool) (valid : Nat → Nat → Bool) (ops : List HOp)
+    (hwf : ∀ op ∈ ops, op.WF) : HInv (hrun (hempty admits valid) ops) :=
+  hrun_inv ops hwf _ (hempty_inv _ _)
+
+/-- **An edit of a detached object never changes the workflow**: if the reference is not the one
+stored in `inputs_map` nor the one stored in `outputs_map` (the object the user assigned, a live
+map that has been replaced, the live map of another workflow that was given the same object …),
+the world — hence both panels, the return value, everything above — is the same afterwards. -/
+theorem C15_detached_edit (h : HS) (r : Nat) (e : Edit)
+    (hi : h.slot .wfIn ≠ some r) (ho : h.slot .wfOut ≠ some r) :
+    (hstep h (.edit r e)).1.world = h.world :=
+  world_ext _ _ (hedit_base h r e).1 (hedit_deref_other h r e _ hi) (hedit_deref_other h r e _ ho)
+
+/-- **The setter copies.** An accepted assignment of the object `r` stores a reference that did
+not exist before (so it is neither `r` nor anybody else's), the stored object holds the cleaned
+items of `r`, a plain dict `r` has been cleaned in place, a bidict `r` is untouched — and a
+refused one (`ValueDuplicationError`) changes no stored reference but has cleaned the dict as well. -/
+theorem C15_setter_copies (h : HS) (s : Slot) (r : Nat) (o : MObj) (ho : h.obj r = some o) :
+    let items := if o.bidict then o.items else cleanDict o.items
+    let h' := (hassign h s (some r)).1
+    h'.obj r = some { o with items := items } ∧
+    ((hassign h s (some r)).2 = .ok →
+      h'.slot s = some h.heap.length ∧ h'.deref s = some items ∧ (∀ s', s' ≠ s → h'.slot s' = h.slot s')) ∧
+    ((hassign h s (some r)).2 ≠ .ok → h'.slot = h.slot) := by
+  have hlt := obj_lt ho
+  simp only [hassign, ho]
+  cases hb : o.bidict with
+  | true =>
+    simp only [if_true]
+    split
+    · refine ⟨?_, fun _ => ⟨by simp [updSlot], ?_, fun s' hs' => by simp [updSlot, hs']⟩, fun hne => absurd rfl hne⟩
+      · simp only [HS.obj] at ho ⊢
+        rw [List.getElem?_append_left hlt, ho]
+        cases o; simp_all
+      · simp [HS.deref, HS.obj, updSlot]
+    · refine ⟨?_, fun hne => by simp at hne, fun _ => rfl⟩
+      simp only [HS.obj] at ho ⊢
+      rw [ho]
+      cases o; simp_all
+  | false =>
+    simp only [Bool.false_eq_true, if_false]
+    split
+    · refine ⟨?_, fun _ => ⟨by simp [updSlot], ?_, fun s' hs' => by simp [updSlot, hs']⟩, fun hne => absurd rfl hne⟩
+      · simp only [HS.obj]
+        rw [List.getElem?_append_left (by simpa using hlt), List.getElem?_set_self hlt]
+      · simp [HS.deref, HS.obj, updSlot]
+    · refine ⟨?_, fun hne => by simp at hne, fun _ => rfl⟩
+      simp only [HS.obj]
+      rw [List.getElem?_set_self hlt]
+
+/-- **One object given to both sides (or to two workflows) is not shared afterwards.** In a
+reachable state an edit through the reference stored in one map attribute leaves every other
+map attribute as it was. -/
+theorem C15_no_alias_edit (h : HS) (hi : HInv h) (s s' : Slot) (r : Nat) (hs : h.slot s = some r)
+    (hne : s' ≠ s) (e : Edit) : (hstep h (.edit r e)).1.deref s' = h.deref s' :=
+  hedit_deref_other h r e s' (fun h' => hne (hi.noAlias s' s r h' hs))
+
+/-- **The heap model and the flat model agree** on edits through the stored reference and on the
+getter: the world after the heap operation is the world after `Op.edit` / `Op.read`, with the
+same outcome. (So every theorem about `Op.edit`/`Op.read` speaks about the heap model too.) -/
+theorem C15_heap_edit_is_edit (h : HS) (hi : HInv h) (sd : Side) (r : Nat)
+    (hs : h.slot (Slot.ofSide sd) = some r) (e : Edit) :
+    (hstep h (.edit r e)).1.world = (step h.world (.edit sd e)).1 ∧
+    (hstep h (.edit r e)).2 = (step h.world (.edit sd e)).2 := by
+  obtain ⟨o, ho, hb⟩ := hi.stored _ r hs
+  have hlt := obj_lt ho
+  have hother : ∀ s', s' ≠ Slot.ofSide sd → (hstep h (.edit r e)).1.deref s' = h.deref s' :=
+    fun s' hne => C15_no_alias_edit h hi _ s' r hs hne e
+  have ho' : h.heap[r]? = some o := ho
+  have hself : (hstep h (.edit r e)).1.deref (Slot.ofSide sd) = some (editMap o.items e).1 ∧
+      (hstep h (.edit r e)).2 = (editMap o.items e).2 := by
+    simp [hstep, hedit, HS.obj, ho', editObj, hb, HS.deref, hs, List.getElem?_set_self hlt]
+  have hd : h.deref (Slot.ofSide sd) = some o.items := by simp [HS.deref, hs, ho]
+  have hbase := (hedit_base h r e).1
+  cases sd with
+  | inputs =>
+    have h2 := hother .wfOut (by decide)
+    simp only [Slot.ofSide] at hself hd
+    refine ⟨?_, ?_⟩
+    · simp only [hstep] at hself h2 ⊢
+      simp [HS.world, step, hbase, hself.1, h2, hd, editStored]
+    · rw [hself.2]; simp [HS.world, step, hd, editStored]
+  | outputs =>
+    have h2 := hother .wfIn (by decide)
+    simp only [Slot.ofSide] at hself hd
+    refine ⟨?_, ?_⟩
+    · simp only [hstep] at hself h2 ⊢
+      simp [HS.world, step, hbase, hself.1, h2, hd, editStored]
+    · rw [hself.2]; simp [HS.world, step, hd, editStored]
+
+/-- **A pickle round trip changes nothing the workflow can see**: both maps come back as equal
+new objects (the world is the same), and the old objects are detached from then on. -/
+theorem C15_reload_same (h : HS) (hi : HInv h) :
+    (hreload h).world = h.world ∧
+    ∀ sd r, h.slot (Slot.ofSide sd) = some r → (hreload h).slot (Slot.ofSide sd) ≠ some r := by
+  have h1 := copySlot_inv hi .wfIn
+  refine ⟨world_ext _ _ ?_ ?_ ?_, ?_⟩
+  · simp [hreload, copySlot_base]
+  · simp only [hreload]; rw [copySlot_deref h1, copySlot_deref hi]
+  · simp only [hreload]; rw [copySlot_deref h1, copySlot_deref hi]
+  · intro sd r hs hs'
+    have hlt := stored_lt hi _ r hs
+    have hd : ∃ m, h.deref (Slot.ofSide sd) = some m := by
+      obtain ⟨o, ho, _⟩ := hi.stored _ r hs
+      exact ⟨o.items, by simp [HS.deref, hs, ho]⟩
+    obtain ⟨m, hm⟩ := hd
+    cases sd with
+    | inputs =>
+      simp only [Slot.ofSide] at hs hs' hm
+      simp only [hreload] at hs'
+      rw [copySlot_slot_other _ _ _ (by decide), copySlot_slot_self h _ m hm] at hs'
+      simp at hs'; omega
+    | outputs =>
+      simp only [Slot.ofSide] at hs hs' hm
+      have hm' : (copySlot h .wfIn).deref .wfOut = some m := by rw [copySlot_deref hi]; exact hm
+      have e2 := copySlot_len h .wfIn
+      simp only [hreload] at hs'
+      rw [copySlot_slot_self _ _ m hm'] at hs'
+      simp at hs'; omega
+
+/-- **At any moment, with object identity.** After every heap history the stored maps of the
+workflow under study are well-formed, the getter does not raise, the access equals `_build_io` on
+the stored object, and that is the set expression over the map as the user sees it — or the
+access raises on a key clash. -/
+theorem C15_at_any_moment_heap (admits : Nat → Val → Bool) (valid : Nat → Nat → Bool) (ops : List HOp)
+    (hwf : ∀ op ∈ ops, op.WF) (s : Side) :
+    let w := (hrun (hempty admits valid) ops).world
+    WInv w ∧ (step w (.read s)).2 = .ok ∧ (w.access s).2 = w.panel s ∧
+    ((w.panel s = some (uspec (userView ((w.map s).getD [])) w.connected (w.chans s)) ∧
+        NoClash (w.map s) w.connected (w.chans s)) ∨
+      (w.panel s = none ∧ ¬ NoClash (w.map s) w.connected (w.chans s))) := by
+  intro w
+  have hinv : WInv w := world_inv (C15_heap_inv admits valid ops hwf)
+  obtain ⟨r1, r2, _, _⟩ := C15_read_ok w hinv s
+  refine ⟨hinv, r1, r2, ?_⟩
+  by_cases h : NoClash (w.map s) w.connected (w.chans s)
+  · refine .inl ⟨?_, h⟩
+    have := C15_io_total w s h
+    rw [this, W.spec, spec_eq_uspec]
+  · exact .inr ⟨(buildIO_none_iff _ _ _).mpr h, h⟩
+
+
+/-! ### Non-vacuity: a concrete heap history -/
+
+/-- the user's dict `d` (#0: two `None`s and a name) is given to the second workflow's
+`inputs_map`, then to `inputs_map` and `outputs_map` of the workflow under study (stored copies
+#1, #2, #3; `d` itself now holds markers); `d['n1__b'] = 'w'` (detached); `m = wf.inputs_map`
+(#2), `m['n0__c'] = None`; a bidict `b` (#4) assigned to `outputs_map` (copy #5, #3 is replaced),
+`b.clear()`, the replaced live map #3 edited; a pickle round trip (#6, #7). -/
+def heapOps : List HOp :=
+  [.base (.add c0), .base (.add c1),
+   .new false [("n0__a", none), ("n0__b", none), ("n1__a", some "x")],
+   .assign .otherIn (some 0), .assign .wfIn (some 0), .assign .wfOut (some 0),
+   .edit 0 (.put "n1__b" (some "w")),
+   .get .wfIn, .edit 2 (.put "n0__c" none),
+   .new true [("n0__o", some "res")], .assign .wfOut (some 4), .edit 4 .clear, .edit 3 (.put "n1__o" none),
+   .edit 1 .clear, .reload]
+
+def heapS : HS := hrun (hempty (fun _ _ => true) (fun _ _ => true)) heapOps
+
+theorem heapOps_wf : ∀ op ∈ heapOps, op.WF := by simp [heapOps, HOp.WF]
+example : HInv heapS := C15_heap_inv _ _ heapOps heapOps_wf
+example : heapS.slot .wfIn = some 6 ∧ heapS.slot .wfOut = some 7 ∧ heapS.slot .otherIn = some 1 := by decide
+example : heapS.world.imap = some [("n0__a", .disabled "n0__a"), ("n0__b", .disabled "n0__b"), ("n1__a", .name "x"),
+    ("n0__c", .rawNone)] ∧ heapS.world.omap = some [("n0__o", .name "res")] := by decide
+/-- the user's dict was cleaned in place and took the detached edit; the detached objects kept theirs -/
+example : (heapS.obj 0).map (·.items) = some [("n0__a", .disabled "n0__a"), ("n0__b", .disabled "n0__b"),
+    ("n1__a", .name "x"), ("n1__b", .name "w")] ∧ (heapS.obj 4).map (·.items) = some [] ∧
+    (heapS.obj 1).map (·.items) = some [] := by decide
+example : heapS.world.panel .inputs = some [("x", 4), ("n1__b", 5), ("n1__c", 6)] ∧
+    heapS.world.panel .outputs = some [("res", 3), ("n1__o", 7)] := by decide
+/-- hypotheses of `C15_detached_edit` / `C15_no_alias_edit` / `C15_heap_edit_is_edit` in the example -/
+example : heapS.slot .wfIn ≠ some 0 ∧ heapS.slot .wfOut ≠ some 0 := by decide
+example : (hstep heapS (.edit 0 .clear)).1.world.panel .inputs = heapS.world.panel .inputs := by
+  rw [C15_detached_edit heapS 0 .clear (by decide) (by decide)]
+/-- a dict whose cleaned values clash is refused — and stays cleaned -/
+example : let h := (hstep (hempty (fun _ _ => true) (fun _ _ => true)) (.new false [("a", some "z"), ("b", some "z"), ("c", none)])).1
+    (hassign h .wfIn (some 0)).2 = .dupErr ∧ ((hassign h .wfIn (some 0)).1.obj 0).map (·.items) =
+      some [("a", .name "z"), ("b", .name "z"), ("c", .disabled "c")] ∧ (hassign h .wfIn (some 0)).1.slot .wfIn = none := by
+  decide
+
 end PwVerif.C15
 
 #print axioms PwVerif.C15.C15_io_spec
@@ -546,3 +739,10 @@ end PwVerif.C15
 #print axioms PwVerif.C15.C15_getter_hide_accepted
 #print axioms PwVerif.C15.C15_live_hide
 #print axioms PwVerif.C15.C15_at_any_moment_live
+#print axioms PwVerif.C15.C15_heap_inv
+#print axioms PwVerif.C15.C15_detached_edit
+#print axioms PwVerif.C15.C15_setter_copies
+#print axioms PwVerif.C15.C15_no_alias_edit
+#print axioms PwVerif.C15.C15_heap_edit_is_edit
+#print axioms PwVerif.C15.C15_reload_same
+#print axioms PwVerif.C15.C15_at_any_moment_heap
